@@ -504,7 +504,9 @@ class TopCollector(ScoredCollector):
                 items.pop(i)
                 # Restore the heap invariant
                 heapify(items)
-                self.minscore = items[0][0] if items else 0
+                # The list is no longer full, so any score can make the top N
+                # again
+                self.minscore = 0
                 return
 
     def results(self):
